@@ -23,7 +23,11 @@ Inductive ncase :=
   (* decimal.NewFromString on a number literal (exponent notation included) *)
 | KNumNew (s : text) (r : option (Z * Z))
   (* operators.Equal on a number and a text *)
-| KNumTextEq (m e : Z) (s : text) (op_equal : bool).
+| KNumTextEq (m e : Z) (s : text) (op_equal : bool)
+  (* XNumber.MarshalJSON gave js; XNumber.UnmarshalJSON of it gave back *)
+| KNumStored (m e : Z) (js : text) (back : option (Z * Z))
+  (* XNumber.UnmarshalJSON on an arbitrary number token *)
+| KNumUnmarshal (s : text) (r : option (Z * Z)).
 
 Definition ncheck (k : ncase) : bool :=
   match k with
@@ -33,6 +37,8 @@ Definition ncheck (k : ncase) : bool :=
       Bool.eqb (equal_num (Dec m1 e1) (Dec m2 e2)) o && Bool.eqb (dec_eqb (Dec m1 e1) (Dec m2 e2)) d
   | KNumNew s r => opt_dec_same (new_from_string s) r
   | KNumTextEq m e s o => Bool.eqb (equal_num_text (Dec m e) s) o
+  | KNumStored m e js back => text_eqb (num_marshal (Dec m e)) js && opt_dec_same (num_unmarshal js) back
+  | KNumUnmarshal s r => opt_dec_same (num_unmarshal s) r
   end.
 
 Fixpoint mismatches_from {A} (chk : A -> bool) (i : N) (ks : list A) : list N :=
